@@ -29,4 +29,9 @@ VARIANTS = [
     V("N-nested-loops", M, "    for (index1, geometry1), (index2, geometry2) in product(\n        enumerate(source), enumerate(target)\n    ):\n        cost_matrix[index1, index2] = compute_affinity(\n            geometry1,\n            geometry2,\n            time_buffer=time_buffer,\n            freq_buffer=freq_buffer,\n        )\n",
       "    for index1, geometry1 in enumerate(source):\n        for index2, geometry2 in enumerate(target):\n            cost_matrix[index1, index2] = compute_affinity(\n                geometry1,\n                geometry2,\n                time_buffer=time_buffer,\n                freq_buffer=freq_buffer,\n            )\n", None),
     V("N-matrix-dtype-float", M, "cost_matrix = np.zeros(shape=(len(source), len(target)))", "cost_matrix = np.zeros(shape=(len(source), len(target)), dtype=float)", None),
+    # wave 7
+    V("single-row-shortcut-pairs-without-overlap", "src/soundevent/evaluation/match.py", "    assiged_rows, assigned_columns = linear_sum_assignment(",
+      "    if cost_matrix.shape[0] == 1 and cost_matrix.shape[1] > 0:\n        best = int(np.argmax(cost_matrix[0]))\n        yield 0, best\n        for column in range(cost_matrix.shape[1]):\n            if column != best:\n                yield None, column\n        return\n\n    assiged_rows, assigned_columns = linear_sum_assignment(", "R07.4"),
+    V("N-affinities-looked-up-at-once", "src/soundevent/evaluation/match.py", "    for row, column in zip(assiged_rows, assigned_columns):\n        if cost_matrix[row, column] <= 0:",
+      "    found = cost_matrix[assiged_rows, assigned_columns]\n    for row, column, value in zip(assiged_rows, assigned_columns, found):\n        if value <= 0:", None),
 ]
